@@ -251,7 +251,9 @@ def run_recursive(case):
         elif c[0] == "rule":
             det["clauses"].append(["rule", None, c[2], c[3]])
         else:
-            det["clauses"].append(["rule", None, c[1][0][1], c[2]])
+            # every head of an annotated disjunction becomes a deterministic rule (keeps every predicate of the program defined)
+            for _p, h in c[1]:
+                det["clauses"].append(["rule", None, h, c[2]])
     F = G.features(det)
     if not F["rec"] or F["contra_cyc"] or F["neg_cyclic_in_cycle"]:
         return skip("not a clean recursive program")
